@@ -114,9 +114,12 @@ class Gen(object):
             w(3, lambda: ([['flat_map']], INT))
             w(2, lambda: ([['map', ['len']]], INT))
         # generic
-        w(1, lambda: ([['first']], t))
+        early = not getattr(self, 'no_early', False)     # take / first complete a plain observable early
+        if early:
+            w(1, lambda: ([['first']], t))
         w(1, lambda: ([['last']], t))
-        w(2, lambda: ([['take', r.randint(0, 3)]], t))
+        if early:
+            w(2, lambda: ([['take', r.randint(0, 3)]], t))
         w(1, lambda: ([['count', int(r.random() < 0.4)]], INT))
         w(1, lambda: ([['to_list']], LST if t == INT else ANY))
         if t in (INT, FLT) and self.plain_ok:
